@@ -160,19 +160,29 @@ fn first_lists(tool: &str, args: &[String], want: usize, timeout_s: u64) -> (&'s
       std::thread::spawn(move || { let t0 = std::time::Instant::now();
           while !done.load(Ordering::SeqCst) { if t0.elapsed().as_secs() >= timeout_s { let _ = child.lock().unwrap().kill(); break; } std::thread::sleep(std::time::Duration::from_millis(20)); } }); }
     let mut rd = std::io::BufReader::with_capacity(1 << 20, so);
+    let t_start = std::time::Instant::now();
     let mut lists: Vec<String> = Vec::new();
     let mut line: Vec<u8> = Vec::new();
     while lists.len() < want {
         line.clear();
         match rd.read_until(b'\n', &mut line) { Ok(0) | Err(_) => break, Ok(_) => {} }
-        if line.first() == Some(&b'[') { lists.push(String::from_utf8_lossy(&line).trim_end().to_string()); }
+        // a constraint line: a list, possibly after a connective (`& [..] <= 1`, `and [..] <= 1`); comments start with a quote
+        if line.first() != Some(&b'"') {
+            if let Some(at) = line.iter().position(|b| *b == b'[') {
+                let before = String::from_utf8_lossy(&line[..at]).trim().to_string();
+                if before.is_empty() || before == "&" || before == "and" { lists.push(String::from_utf8_lossy(&line[at..]).trim_end().to_string()); }
+            }
+        }
     }
     let complete = lists.len() == want;
     done.store(true, Ordering::SeqCst);
     let mut c = child.lock().unwrap();
     if complete { let _ = c.kill(); }
     let status = c.wait().ok();
-    let class = if complete { "ok" } else { match status.and_then(|s| s.code()) { Some(0) => "ok", Some(101) => "panic", Some(_) => "err", None => "signal" } };
+    // stopped by the watchdog above without three lines this reader recognises: nothing is known ("unread"), which is
+    // not the same as a generator that failed by itself
+    let timed_out = !complete && t_start.elapsed().as_secs() >= timeout_s;
+    let class = if complete { "ok" } else { match status.and_then(|s| s.code()) { Some(0) => "ok", Some(101) => "panic", Some(_) => "err", None => if timed_out { "unread" } else { "signal" } } };
     (class, lists)
 }
 
